@@ -111,6 +111,13 @@ int main(int argc, char **argv) {
           H3Index p1[12]; getPentagons(1, p1);
           for (int i = 0; i < 12; i++) { if (quick && i % 3) continue; ev_safe("gridDiskDistancesSafe", 2, p1[i], 26); ev_safe("gridDisk", 0, p1[i], 27); }
           for (int t = 0; t < (quick ? 3 : 20); t++) ev_safe(t % 2 ? "gridDisk" : "gridDiskDistances", t % 2 ? 0 : 1, vt_random_cell(1), 25 + (int)vt_randn(4)); }
+        /* k from "half the globe" up to the graph diameter (10 at r=0, 26 at r=1), every value: between the k at which a flat disk would
+           already hold as many cells as the globe has and the diameter, the disk is still not the whole globe */
+        { H3Index r0[122]; getRes0Cells(r0); H3Index p1[12]; getPentagons(1, p1);
+          for (int t = 0; t < (quick ? 6 : 30); t++) { H3Index h = t % 2 ? r0[vt_randn(122)] : r0[(int[]){4, 14, 24, 38, 49, 58, 63, 72, 83, 97, 107, 117}[vt_randn(12)]];
+              for (int k = 4; k <= 11; k++) { ev_safe("gridDisk", 0, h, k); if (k % 2) ev_safe("gridDiskDistances", 1, h, k); } }
+          for (int t = 0; t < (quick ? 4 : 16); t++) { H3Index h = t % 2 ? vt_random_cell(1) : p1[vt_randn(12)];
+              for (int k = 15; k <= 27; k += (quick ? 2 : 1)) ev_safe("gridDisk", 0, h, k); } }
         /* large k at the coarsest resolutions: wraps more than half of the globe */
         for (int res = 0; res <= 1; res++) {
             CellVec cv = {0}; cv_all_cells(&cv, res);
